@@ -595,13 +595,13 @@ Proof.
 Qed.
 
 Lemma AInv_init : forall thr max, AInv (view (init_state thr max)).
-Proof. intros. unfold AInv, view, KW, KB, KChkL, KChkU, KCas, KWr; cbn. lia. Qed.
+Proof. intros. unfold AInv, view; cbn. unfold KW, KB, KChkL, KChkU, KCas, KWr. lia. Qed.
 
 Theorem winv_reachable : forall s, reachable wk_init wk_step s -> sane s -> winv s.
 Proof.
   intros s R. induction R as [s [thr [max Hi]]|s l s' R IH Hs]; intro Sn.
   - subst s. splits.
-    + unfold cnt_ok; cbn; lia.
+    + unfold cnt_ok. cbn [init_state w_sh efd_cnt]. lia.
     + apply loop_ok_intro; reflexivity.
     + apply AInv_init.
   - destruct l as [[t c] o]. unfold wk_step in Hs. cbn [fst snd] in Hs.
